@@ -100,6 +100,7 @@ static void *thread_main(void *v)
 
 static uint32_t shared_pix[DH][DW];
 static uint64_t solo_digest[MAXT];
+static int shared_refs_bad;
 
 /* Runs the harness under the given schedule prefix.  Returns 0 if all digests equal the solo digests. */
 static int execute(const harness_t *h, const int *pfx, int plen, uint64_t got[MAXT])
@@ -128,8 +129,16 @@ static int execute(const harness_t *h, const int *pfx, int plen, uint64_t got[MA
         pixman_image_composite32(PIXMAN_OP_OVER, sclip, NULL, d, 1, 0, 0, 0, 0, 0, DW, DH);
         pixman_image_unref(d);
     }
+    static uint32_t acc_pix[DW * DH];
+    pixman_image_t *sacc = body_make_shared_acc(acc_pix);
+    {   /* first use on the main thread */
+        uint32_t tmp[DH][DW]; memset(tmp, 0, sizeof tmp);
+        pixman_image_t *d = pixman_image_create_bits(PIXMAN_a8r8g8b8, DW, DH, &tmp[0][0], DW * 4);
+        pixman_image_composite32(PIXMAN_OP_OVER, sacc, NULL, d, 0, 0, 0, 0, 0, 0, DW, DH);
+        pixman_image_unref(d);
+    }
     NT = h->nthreads;
-    for (int t = 0; t < NT; t++) { body_setup(&ctx[t], t, shared); ctx[t].shared_grad = sgrad; ctx[t].shared_clipped = sclip; alive[t] = 1; }
+    for (int t = 0; t < NT; t++) { body_setup(&ctx[t], t, shared); ctx[t].shared_grad = sgrad; ctx[t].shared_clipped = sclip; ctx[t].shared_acc = sacc; alive[t] = 1; }
     npoints = 0; prefix = pfx; prefix_len = plen; diverged = 0; trace_hash = 0;
     for (int t = 0; t < MAXT; t++) last_range[t] = -2;
     turn = -1;
@@ -140,7 +149,13 @@ static int execute(const harness_t *h, const int *pfx, int plen, uint64_t got[MA
     sched_on = 0;
     int bad = 0;
     for (int t = 0; t < NT; t++) { got[t] = body_digest(&ctx[t]); if (got[t] != solo_digest[t]) bad = 1; body_teardown(&ctx[t]); }
-    pixman_image_unref(shared); pixman_image_unref(sgrad); pixman_image_unref(sclip);
+    /* the shared images were only read: the harness holds the only reference to each, so every unref must be the last one */
+    shared_refs_bad = 0;
+    if (!pixman_image_unref(shared)) shared_refs_bad |= 1;
+    if (!pixman_image_unref(sgrad)) shared_refs_bad |= 2;
+    if (!pixman_image_unref(sclip)) shared_refs_bad |= 4;
+    if (!pixman_image_unref(sacc)) shared_refs_bad |= 8;
+    if (shared_refs_bad) bad = 1;
     return bad;
 }
 
@@ -193,6 +208,7 @@ static void explore(const harness_t *h, int hid, const int *pfx, int plen, int p
         size_t l = (size_t)snprintf(fail_text, sizeof fail_text, "harness %d, schedule [%s] (%d points): ", hid, sch, npoints);
         for (int t = 0; t < h->nthreads && l + 80 < sizeof fail_text; t++)
             l += snprintf(fail_text + l, sizeof fail_text - l, "thread %d digest %016llx (alone: %016llx)%s ", t, (unsigned long long)got[t], (unsigned long long)solo_digest[t], got[t] != solo_digest[t] ? " DIFFERS" : "");
+        if (shared_refs_bad && l + 120 < sizeof fail_text) snprintf(fail_text + l, sizeof fail_text - l, "; a shared (read-only) image was still referenced after the harness dropped its only reference (mask %d)", shared_refs_bad);
         explore_failed = 1;
         return;
     }
@@ -218,13 +234,13 @@ static void explore(const harness_t *h, int hid, const int *pfx, int plen, int p
 }
 
 /* ---------------- harnesses ---------------- */
-static harness_t H[64]; static int NH;
+static harness_t H[96]; static int NH;
 static void add_pair(int a, int b) { harness_t *h = &H[NH++]; memset(h, 0, sizeof *h); h->nthreads = 2; h->nops[0] = 2; h->ops[0][0] = a; h->ops[0][1] = b; h->nops[1] = 2; h->ops[1][0] = b; h->ops[1][1] = a; }
 static void add_triple(int a, int b, int c) { harness_t *h = &H[NH++]; memset(h, 0, sizeof *h); h->nthreads = 3; for (int t = 0; t < 3; t++) h->nops[t] = 1; h->ops[0][0] = a; h->ops[1][0] = b; h->ops[2][0] = c; }
 
-typedef struct { int first_dev_points[64]; int base[65]; } layout_t;
+typedef struct { int first_dev_points[96]; int base[97]; } layout_t;
 static layout_t L;
-static point_t base_trace[64][MAXP / 8]; static int base_np[64];
+static point_t base_trace[96][MAXP / 8]; static int base_np[96];
 
 /* case = (harness, first deviation). index 0 of a harness = the deviation-free schedule + determinism check */
 static void sched_case(uint64_t idx, void *ctx)
@@ -306,7 +322,7 @@ int main(int argc, char **argv)
               "function); thread exits are free switches. A case is one first deviation of one harness and the whole schedule subtree below it. states = schedules executed, "
               "transitions = executions; oracle: every thread's result digest equals its digest when run alone.";
     vf_assume("preemption at basic-block boundaries and sequentially consistent executions only; races inside a block are the free-running ThreadSanitizer pass's subject");
-    vf_assume("harnesses of 2 threads x 2 operations (all unordered pairs of 10 operation kinds, each thread in opposite order) and 3 threads x 1 operation");
+    vf_assume("harnesses of 2 threads x 2 operations (all unordered pairs of 11 operation kinds, each thread in opposite order) and 3 threads x 1 operation");
     if (n_interesting == 0) vf_cap("symbol table not available: no 'interesting' function ranges, only bound_all applies");
 
     /* Iterating the bound: the space "schedules" takes the tier's harness list at the lower bound (1 everywhere / 2 inside the dispatch functions) and is
@@ -321,7 +337,7 @@ int main(int argc, char **argv)
             add_pair(a, bb);
         }
         if (wide) { add_triple(OP_FAST_OVER, OP_GENERAL_ATOP, OP_SAME_TWICE); add_triple(OP_GENERAL_ATOP, OP_GENERAL_ATOP, OP_GRADIENT); add_triple(OP_SHARED_SRC, OP_SHARED_SRC, OP_FILL); add_triple(OP_REGION, OP_TRAP, OP_FAST_OVER);
-                    add_triple(OP_SHARED_CLIPPED_SRC, OP_SHARED_CLIPPED_SRC, OP_SHARED_GRADIENT); }
+                    add_triple(OP_SHARED_CLIPPED_SRC, OP_SHARED_CLIPPED_SRC, OP_SHARED_GRADIENT); add_triple(OP_SHARED_ACCESSOR_SRC, OP_SHARED_ACCESSOR_SRC, OP_SHARED_SRC); }
         else add_triple(OP_FAST_OVER, OP_GENERAL_ATOP, OP_SHARED_SRC);
         B.bound_all = pass ? 2 : 1; B.bound_interesting = pass ? 3 : 2;
         if (getenv("C16_BOUND_ALL")) B.bound_all = atoi(getenv("C16_BOUND_ALL"));
